@@ -95,47 +95,16 @@ def run_shard(spec):
             x = x[key] if kind == "i" else getattr(x, key)
         return x
 
-    for fam in range(spec["families"]):
-        base = [rand_path(rng) for _ in range(spec["size"])]
-        # near-duplicates: same path with one step changed in kind or key type
-        extra = []
-        for p in base[:spec["size"] // 4]:
-            steps = list(p[1])
-            j = rng.randrange(len(steps))
-            kind, key = steps[j]
-            if kind == "a":
-                steps[j] = ("i", key)
-            elif isinstance(key, str) and key.isidentifier() and not key.startswith("_") and not keyword.iskeyword(key):
-                steps[j] = ("a", key)
-            elif isinstance(key, int):
-                steps[j] = ("i", str(key))
-            else:
-                steps[j] = ("i", repr(key))
-            extra.append((p[0], tuple(steps)))
-        # keys that print alike: k vs (k,), tuple vs its text, number vs its text
-        for p in base[:spec["size"] // 3]:
-            steps = list(p[1])
-            items = [j for j, (kind, key) in enumerate(steps) if kind == "i"]
-            if not items:
-                continue
-            j = rng.choice(items)
-            key = steps[j][1]
-            variants = [(key,), ((key,),), repr(key), str(key)]
-            if isinstance(key, tuple):
-                variants += [", ".join(map(repr, key)), list(key) and key[0], key + key[:1]]
-            for v in variants:
-                try:
-                    hash(v)
-                except TypeError:
-                    continue
-                st = list(steps)
-                st[j] = ("i", v)
-                extra.append((p[0], tuple(st)))
-        paths = base + extra
+    def evaluable(x):
+        try:
+            x._get_value()
+            return True
+        except Exception:
+            return False
+
+    def compare_family(paths, ra, rb):
+        """All ordered pairs of one family; returns True if a violation was recorded."""
         ids = [desc_id(p) for p in paths]
-        ma, mb = managers()
-        ra = [build(ma, p) for p in paths]
-        rb = [build(mb, p) for p in paths]
         table = {}
         for i, x in enumerate(ra):
             table.setdefault(x, i)
@@ -179,7 +148,88 @@ def run_shard(spec):
         digests.add(digest([repr(p) for p in paths[:50]]))
         if len(samples) < 2:
             samples.append({"paths": [str(x) for x in ra[:8]], "family_size": n})
-        if violations:
+        return bool(violations)
+
+    for fam in range(spec["families"]):
+        base = [rand_path(rng) for _ in range(spec["size"])]
+        # near-duplicates: same path with one step changed in kind or key type
+        extra = []
+        for p in base[:spec["size"] // 4]:
+            steps = list(p[1])
+            j = rng.randrange(len(steps))
+            kind, key = steps[j]
+            if kind == "a":
+                steps[j] = ("i", key)
+            elif isinstance(key, str) and key.isidentifier() and not key.startswith("_") and not keyword.iskeyword(key):
+                steps[j] = ("a", key)
+            elif isinstance(key, int):
+                steps[j] = ("i", str(key))
+            else:
+                steps[j] = ("i", repr(key))
+            extra.append((p[0], tuple(steps)))
+        # keys that print alike: k vs (k,), tuple vs its text, number vs its text
+        for p in base[:spec["size"] // 3]:
+            steps = list(p[1])
+            items = [j for j, (kind, key) in enumerate(steps) if kind == "i"]
+            if not items:
+                continue
+            j = rng.choice(items)
+            key = steps[j][1]
+            variants = [(key,), ((key,),), repr(key), str(key)]
+            if isinstance(key, tuple):
+                variants += [", ".join(map(repr, key)), list(key) and key[0], key + key[:1]]
+            for v in variants:
+                try:
+                    hash(v)
+                except TypeError:
+                    continue
+                st = list(steps)
+                st[j] = ("i", v)
+                extra.append((p[0], tuple(st)))
+        paths = base + extra
+        ma, mb = managers()
+        ra = [build(ma, p) for p in paths]
+        rb = [build(mb, p) for p in paths]
+        if compare_family(paths, ra, rb):
+            break
+    # ---- the same relation over POPULATED containers whose contents differ between the two managers
+    # (what a path denotes does not depend on what the containers hold when the ref is built)
+    class Obj:
+        pass
+
+    def populated(lens):
+        m = xdeps.Manager()
+        o = Obj()
+        o.p = [0.5] * lens[3]
+        o.q = {"v": [1.5] * lens[4]}
+        data = {"v": [1.0] * lens[0], "w": tuple([2.0] * lens[1]),
+                "n": {"v": [3.0] * lens[2], -1: 7.0, 2: 8.0, "w": (1.0, 2.0)}, "o": o, 0: [4.0] * lens[5]}
+        return {"r": m.ref(data, "r"), "s": m.ref({"v": [1.0] * lens[1]}, "s")}, data
+
+    def rand_pop_path(rng):
+        steps = []
+        for _ in range(rng.randrange(1, 5)):
+            x = rng.random()
+            if x < 0.4:
+                steps.append(("i", rng.choice(["v", "w", "n", "o", 0])))
+            elif x < 0.85:
+                steps.append(("i", rng.randrange(-5, 6)))
+            else:
+                steps.append(("a", rng.choice(["p", "q"])))
+        return (rng.choice(["r", "r", "r", "s"]), tuple(steps))
+
+    for fam in range(spec["families"]):
+        paths = list({rand_pop_path(rng) for _ in range(spec["size"])})
+        paths.sort(key=repr)
+        rng.shuffle(paths)
+        (ma, da), (mb, db) = populated([rng.randrange(1, 6) for _ in range(6)]), populated([rng.randrange(1, 6) for _ in range(6)])
+        ra = [build(ma, p) for p in paths]
+        da["v"].append(9.0)           # contents change between building the two sets of refs
+        rb = [build(mb, p) for p in paths]
+        rc = [build(ma, p) for p in paths]
+        counters["populated_families"] = counters.get("populated_families", 0) + 1
+        counters["populated_paths_evaluable"] = counters.get("populated_paths_evaluable", 0) + sum(1 for x in ra if evaluable(x))
+        if compare_family(paths, ra, rb) or compare_family(paths, ra, rc):
             break
     # ---- collision families -------------------------------------------------------------------
     for prefix, mk in (("bend", lambda i: "bend%d" % i), ("int", lambda i: i - 5000), ("tuple", lambda i: (i // 300, i % 300)),
